@@ -15,9 +15,7 @@ def run(rep, tier, seed):
         for weakly in (False, True):
             if system == "c-inference" and weakly:
                 continue
-            for N, M in ([(2, 2)] if quick else [(2, 2), (3, 3)]):
-                if system == "c-inference" and M == 3:
-                    N, M = 3, 2
+            for N, M in ([(2, 2)] if quick else ([(2, 2), (3, 3)] if system in ("p-entailment", "system-z", "system-w", "lex_inf") and not weakly else [(2, 2), (3, 2)])):
                 pres = {"keys-0-based": dict(keys=list(range(M))), "keys-sparse": dict(keys=[2, 5, 9][:M]),
                         "keys-descending": dict(keys=list(range(M, 0, -1))), "keys-shuffled-sparse": dict(keys=[7, 0, 3][:M])}
                 perms = list(itertools.permutations(range(M)))[1:]
@@ -52,5 +50,13 @@ def run(rep, tier, seed):
             o = dict(std, order=list(perm))
             h = multi.MultiHarness("%s/%s strict N=%d M=%d: standard = order-%s" % (system, pm, N, M, "".join(map(str, perm))), [std, o], N, M, 2, q_single, same(["standard", "permuted"]))
             drive.run_op(rep, h)
+    # a conditional listed twice (identical formula objects) vs. its second copy re-spelled
+    for system, pm in [("lex_inf", "z3"), ("system-w", "z3"), ("lex_inf", "rc2")] + ([] if quick else [("system-w", "rc2"), ("c-inference", "rc2"), ("system-z", ""), ("p-entailment", "")]):
+        N, M = (2, 3)
+        dup = {("A", 1): "same_as_0", ("B", 1): "same_as_0"}
+        o1 = dict(system=system, pm=pm, weakly=False, level="L2", dupshapes=dup)
+        o2 = dict(o1, shapes={("B", 1): "and_self"})
+        h = multi.MultiHarness("%s/%s strict N=%d M=%d: duplicated conditional = its copy spelled (B,B)" % (system, pm or "-", N, M), [o1, o2], N, M, 2, q_single, same(["duplicate", "re-spelled duplicate"]))
+        drive.run_op(rep, h)
     rep.assumptions.append("atom renaming, signature order and unused atoms are invisible to the operators by construction at this level (formulas are truth tables over world classes); they matter only for the ranking objects (C16-C18)")
     rep.assumptions.append("equivalent spellings: table-preserving rewrites with constants / double negation / idempotence on one position; arbitrary rewrites are covered semantically (tables range over all formulas) and syntactically by C15 part 1")
